@@ -15,9 +15,15 @@ func ShouldIncludeNode(directives []*Directive) (bool, error) {
 	skipDirective := findDirectiveWithName(directives, SKIP)
 	if skipDirective != nil {
 		b, err := parseIf(skipDirective)
-		return !b, err
+		if err != nil {
+			return false, err
+		}
+		if b {
+			return false, nil
+		}
 	}
 
+	// A node carrying both directives is included only if both allow it.
 	includeDirective := findDirectiveWithName(directives, INCLUDE)
 	if includeDirective != nil {
 		return parseIf(includeDirective)
